@@ -22,6 +22,15 @@ CLAIMED = {
  "C06": ("must-pass-through dataflow on SSA (a sandbox guard querying the policy for the same name dominates every dynamic FilterFunc/FunctionFunc call and built-in arm) + must-assign dataflow for flag inheritance at every derived RenderContext + who-writes-the-flag check",
          "Sound structural argument for the confinement clause on every path of the current source: whenever the context flag is set, a policy query for exactly the invoked name precedes every filter/function invocation, the flag is inherited by every derived context and is never cleared. Liveness ('allowed constructs keep working') is not decided.",
          "Assumes filters/functions are invoked only through values of the named types FilterFunc/FunctionFunc (R06.5 checks none is converted to an interface on render paths); user SecurityPolicy implementations are assumed to answer truthfully. " + COMMON_NOTE, "§2 C06"),
+ "C10": ("typed-AST lint: every lookup in a name → block-body map that reaches a branch condition is decided on the comma-ok result, never on len()/nil of the body; SSA dominance check that both block maps are copied into the parent's context before the parent renders",
+         "Decides one necessary condition of block substitution for every template set: presence of a definition is membership (an empty override is honoured), and the hand-over of blocks and parentBlocks along extends is complete on every path. Which definition wins along longer chains, parent() chains and nested blocks are substitution semantics over data and are NOT decided.",
+         "Weak clause of a behavioural property, stated as such. " + COMMON_NOTE, "§2 C10"),
+ "C11": ("SSA value-origin analysis (the context handed to every nested Render in a template-loading function is a Clone()/NewRenderContext() result on every phi edge), edge-refined must-dataflow on the only / ignoreMissing flags, errors.Is tied to the swallowed error value, freshness lint on every store to a RenderContext scope-map field",
+         "Decides non-interference on every path: the included/extended/imported template never renders in the caller's own context, `only` never coexists with read-through access, `ignore missing` swallows only ErrTemplateNotFound of the failed load, and no two contexts (or a context and the caller) ever share a scope map. Option parsing and computed names are not decided.",
+         COMMON_NOTE, "§2 C11"),
+ "C20": ("typed-AST lint (complete key literals, StructField.Index never indexed) + SSA backward-slice purity check of every store into a cache entry's lookup fields + classification of every write to the cache map (delete / statistics-only read-modify-write under the same key / pure insert) + identity of the reflect.Value that keys and serves the access",
+         "Decides that a cache hit returns what a miss would compute, for every history and any number of distinct (type, name) pairs: the cache and its eviction are unobservable. reflect's FieldByName/MethodByName semantics are trusted.",
+         COMMON_NOTE, "§2 C20"),
  "C13": ("pairing-completeness lint over the typed AST (every parser-side comparison/switch/predicate on a tag-delimiter kind also tests its *_TRIM partner on the same operand with the same polarity) + must-pass-through path search in Parse (whitespace pass before parsing, nil-test correlation) + constant evaluation of the trim cut set",
          "Decides the clause 'the dash is accepted on every tag boundary and never changes whether a template parses', and that trimming is wired to the right neighbour with the right character set, for every template. Output equality with the hand-trimmed template is value-level and not decided.",
          "Operand identity inside one boolean expression is by expression text after type resolution of the constants; tokenizer byte arithmetic is not examined. " + COMMON_NOTE, "§2 C13"),
